@@ -176,6 +176,104 @@ def run(chk, which):
     chk.extra["compose_events"] = len(events)
 
 
+# ---- Compose at the level of members (MC_Members): {n} is the member's name, {p} is `pub ` in a struct and empty in a struct variant
+MEMBER_MENU = {
+    "m_plain": "{p}{n}: u32",
+    "m_opt": "{p}{n}: Option<String>",
+    "m_default": "#[serde(default)] {p}{n}: u32",
+    "m_renamed": '#[serde(rename = "{n}Wire")] {p}{n}: bool',
+    "m_dashed": '#[serde(rename = "{n}-wire")] {p}{n}: bool',
+    "m_cont": "{p}{n}: Vec<Option<HashMap<String, u32>>>",
+    "m_skip": "#[serde(skip)] {p}{n}: u32",
+    "m_override": '#[typeshare(typescript(type = "bigint"), swift(type = "Int"), kotlin(type = "Int"), scala(type = "Short"), go(type = "uint"), python(type = "int"))] {p}{n}: u32',
+    "m_unit": "{p}{n}: ()",
+    "m_optopt": "{p}{n}: Option<Option<bool>>",
+    "m_boxed": "{p}{n}: Box<Vec<String>>",
+}
+M_SUBJECT, M_BEFORE, M_AFTER = "the_subject", "aaa", "zzz"          # the siblings are one-word names: most rules leave them alone
+
+
+def member_program(c):
+    p = "pub " if c["host"] == "struct" else ""
+    ms = []
+    if c["before"] != "none":
+        ms.append(MEMBER_MENU[c["before"]].format(n=M_BEFORE, p=p))
+    ms.append(MEMBER_MENU[c["item"]].format(n=M_SUBJECT, p=p))
+    if c["after"] != "none":
+        ms.append(MEMBER_MENU[c["after"]].format(n=M_AFTER, p=p))
+    ra = f'#[serde(rename_all = "{c["rule"]}")]\n' if c["rule"] != "none" else ""
+    if c["host"] == "struct":
+        return f"#[typeshare]\n{ra}pub struct Host {{\n" + "".join(f"    {m},\n" for m in ms) + "}\n"
+    va = f'    #[serde(rename_all = "{c["rule"]}")]\n' if c["rule"] != "none" else ""
+    return f'#[typeshare]\n#[serde(tag = "t", content = "c")]\npub enum Host {{\n    Unit,\n{va}    Sv {{\n' + "".join(f"        {m},\n" for m in ms) + "    },\n}\n"
+
+
+def member_facet(m, which):
+    if m is None:
+        return "<no such member>"
+    return scrub({"keys": {"key": m.get("key")}, "optional": {"optional": bool(m.get("optional"))}, "types": {"ty": m.get("ty")}}[which])
+
+
+def run_members(chk, which):
+    """which: keys | optional | types. MC_Members x 6 languages through the library; the subject member's facet with siblings is compared
+    (Trace_Compose, Compose!Independent) with its facet as the host's only member."""
+    res = common.run_tlc("MC_Members", cfg="MC_Members", workers=2, timeout=300)
+    chk.add_tlc("MC_Members", res)
+    cases = res.replays
+    if not cases:
+        raise ToolError("MC_Members produced no cases")
+    unknown = {c[k] for c in cases for k in ("item", "before", "after")} - set(MEMBER_MENU) - {"none"}
+    if unknown:
+        raise ToolError(f"no rendering for members {unknown}")
+    srcs = [member_program(c) for c in cases]
+    results = observe.generate(srcs, mixed=False)
+
+    def subject(lang, obs, c):
+        ms = (observe.find_def(obs, "Host") or {}).get("members") if c["host"] == "struct" else observe.struct_variant_members(lang, obs, ["Host"], "Sv", "Sv")
+        if ms is None:
+            return None
+        k = 1 if c["before"] not in ("none", "m_skip") else 0          # position of the subject among the generated members
+        return ms[k] if k < len(ms) else None
+
+    alone = {(c["item"], c["host"], c["rule"]): per for c, per in zip(cases, results) if c["before"] == "none" and c["after"] == "none"}
+    events, meta = [], []
+    for c, per, src in zip(cases, results, srcs):
+        if c["before"] == "none" and c["after"] == "none":
+            continue
+        for lang in common.LANGS:
+            r, r0 = per[lang], alone.get((c["item"], c["host"], c["rule"]), {}).get(lang)
+            if r0 is None or r["status"] != "ok" or r0["status"] != "ok":
+                continue          # refusals / panics / unreadable files: C03 / C07 / C08 / C10
+            a = subject(lang, r0["obs"], dict(c, before="none", after="none"))
+            if a is None:
+                chk.extra["members_subject_not_found_alone"] = chk.extra.get("members_subject_not_found_alone", 0) + 1
+                continue
+            events.append({"lang": lang, "item": c["item"], "alone": member_facet(a, which), "together": member_facet(subject(lang, r["obs"], c), which)})
+            meta.append((lang, c, src))
+    if not events:
+        raise ToolError("Members: no program was generated")
+    ok, matched, tres = common.trace_validate("Trace_Compose", events, timeout=600)
+    chk.add_tlc(f"Trace_Compose[members,{which}]", tres)
+    if matched != len(events):
+        raise ToolError(f"Trace_Compose consumed {matched}/{len(events)}")
+    for b in tres.bad:
+        lang, c, src = meta[b - 1]
+        e = events[b - 1]
+        where = "+".join(x for x in ("after-" + c["before"] if c["before"] != "none" else "", "before-" + c["after"] if c["after"] != "none" else "") if x)
+        chk.mismatch(f"{chk.pid}/{lang}/members/{c['host']}/{c['item']}/{where}/{which}-depend-on-sibling-members",
+                     f"{lang}: the {which} generated for member {c['item']} of a {c['host']} (rename_all {c['rule']}) differ between the host with this member alone and "
+                     f"with sibling members (before: {c['before']}, after: {c['after']}): alone {str(e['alone'])[:200]} / together {str(e['together'])[:200]}",
+                     {"members": c, "lang": lang, "src": src}, e["alone"], e["together"])
+    chk.traces += len(events) - len(tres.bad)
+    for lang, c, _ in meta:
+        chk.judged((lang, "members", which, c["item"], c["before"], c["after"], c["host"], c["rule"]))
+    chk.extra["members_events"] = len(events)
+
+
 def replay(chk, rec, which):
+    if "members" in rec.get("case", {}):
+        run_members(chk, which)
+        chk.mismatches = {k: v for k, v in chk.mismatches.items() if k == rec["signature"]}
+        return
     run(chk, which)
     chk.mismatches = {k: v for k, v in chk.mismatches.items() if k == rec["signature"]}
